@@ -5,7 +5,11 @@ use arrow_array::RecordBatch;
 use bytes::Bytes;
 use parquet::arrow::ArrowWriter;
 use parquet::basic::{Compression, ZstdLevel};
-use parquet::file::properties::{EnabledStatistics, WriterProperties, WriterVersion};
+use arrow_schema::{DataType, Schema};
+use parquet::file::properties::{
+    EnabledStatistics, WriterProperties, WriterPropertiesBuilder, WriterVersion,
+};
+use parquet::schema::types::ColumnPath;
 
 /// Parquet writer optimized for time-series metrics
 pub struct ParquetWriter {
@@ -13,15 +17,45 @@ pub struct ParquetWriter {
     props: WriterProperties,
 }
 
+/// Switch dictionary encoding off for the floating-point columns of `schema`.
+///
+/// The dictionary finds an existing entry by `==` among the entries its hash probe
+/// presents, and `0.0 == -0.0`: a column holding both zeros can come back with the
+/// sign of a zero changed. Plain encoding stores every value bit for bit.
+pub(crate) fn exact_float_encoding(
+    mut builder: WriterPropertiesBuilder,
+    schema: &Schema,
+) -> WriterPropertiesBuilder {
+    for field in schema.fields() {
+        if matches!(
+            field.data_type(),
+            DataType::Float16 | DataType::Float32 | DataType::Float64
+        ) {
+            builder = builder
+                .set_column_dictionary_enabled(ColumnPath::from(field.name().as_str()), false);
+        }
+    }
+    builder
+}
+
 impl ParquetWriter {
     /// Create a new Parquet writer with optimal settings
     pub fn new() -> Self {
-        let props = Self::build_writer_properties();
+        let props = Self::writer_properties_builder().build();
         Self { props }
     }
 
+    /// Writer properties for a file with the given schema
+    fn props_for(&self, schema: &Schema) -> WriterProperties {
+        if schema.fields().iter().any(|f| f.data_type().is_floating()) {
+            exact_float_encoding(Self::writer_properties_builder(), schema).build()
+        } else {
+            self.props.clone()
+        }
+    }
+
     /// Build optimal writer properties for time-series data
-    fn build_writer_properties() -> WriterProperties {
+    fn writer_properties_builder() -> WriterPropertiesBuilder {
         WriterProperties::builder()
             // Use Parquet v2 for better encoding support
             .set_writer_version(WriterVersion::PARQUET_2_0)
@@ -47,8 +81,6 @@ impl ParquetWriter {
 
             // Data page settings
             .set_data_page_size_limit(1024 * 1024) // 1MB data pages
-
-            .build()
     }
 
     /// Write a record batch to Parquet bytes
@@ -57,7 +89,11 @@ impl ParquetWriter {
 
         {
             let mut writer =
-                ArrowWriter::try_new(&mut buffer, batch.schema(), Some(self.props.clone()))?;
+                ArrowWriter::try_new(
+                &mut buffer,
+                batch.schema(),
+                Some(self.props_for(&batch.schema())),
+            )?;
 
             writer.write(batch)?;
             writer.close()?;
@@ -76,7 +112,11 @@ impl ParquetWriter {
 
         {
             let mut writer =
-                ArrowWriter::try_new(&mut buffer, batches[0].schema(), Some(self.props.clone()))?;
+                ArrowWriter::try_new(
+                &mut buffer,
+                batches[0].schema(),
+                Some(self.props_for(&batches[0].schema())),
+            )?;
 
             for batch in batches {
                 writer.write(batch)?;
